@@ -1,15 +1,21 @@
 use crate::{Ctx, Out};
 
+pub mod c17;
 pub mod c18;
 pub mod c18_impls;
+pub mod c19;
 pub mod c25;
 pub mod c26;
+pub mod c27;
 
 pub fn run(ctx: &Ctx, out: &mut Out) -> bool {
     match ctx.prop.as_str() {
+        "C17" => c17::run(ctx, out),
         "C18" => c18::run(ctx, out),
+        "C19" => c19::run(ctx, out),
         "C25" => c25::run(ctx, out),
         "C26" => c26::run(ctx, out),
+        "C27" => c27::run(ctx, out),
         _ => return false,
     }
     true
